@@ -48,6 +48,7 @@ from src.linter_config.pattern_utils import extract_patterns_from_content, match
 from src.linter_config.rule_matcher import (
     check_bracket_rules,
     check_space_separated_rules,
+    named_rules,
     rules_match_violation,
 )
 
@@ -302,9 +303,7 @@ def _parse_ignore_start_rules(line: str) -> set[str]:
         return {r.strip() for r in bracket.group(1).split(",") if r.strip()}
     match = re.search(r"ignore-start\s+([^\s#]+(?:\s+[^\s#]+)*)", line, re.IGNORECASE)
     if match:
-        rules_text = match.group(1).strip()
-        rules = [r.strip() for r in re.split(r"[,\s]+", rules_text) if r.strip()]
-        return set(rules)
+        return set(named_rules(match.group(1))) or {"*"}
     return {"*"}
 
 
